@@ -231,6 +231,40 @@ Theorem C03_encoder_prologue_is_the_source : forall {C} (keq : C -> C -> bool) (
 Proof. intros. apply SrcPrologueTie.enc_init_tie. Qed.
 Print Assumptions C03_encoder_prologue_is_the_source.
 
+(* the whole of blocks_to_bytes in outline: the translated prologue, then the translated first pass (every operand through
+   from_arg in order - the `args` dict read as the list of values in iteration order -, the additional args for their effect
+   on the tables, the free-variable operands shifted by the number of cell variables), then the relaxation and the assembly
+   (whose steps are tied above) and to_tuple on the four tables (tied below) *)
+Theorem C03_blocks_to_bytes_is_the_source_in_outline :
+  forall {C} (keq : C -> C -> bool) (is_str : C -> bool) (none_c : C) (str_c : str -> C) c blocks additional freevars bt,
+  blocks_to_bytes keq is_str none_c str_c c blocks additional freevars bt =
+  match PCD.Gen.SrcIter.enc_init keq str_c bt with
+  | Err e => Err e
+  | OK st0 =>
+      match PCD.Gen.SrcIter.first_pass keq is_str none_c blocks additional freevars bt st0 with
+      | Err e => Err e
+      | OK (vals1, st2) =>
+          match relax (3 * length (concat blocks) + 2) c blocks vals1 with
+          | Err e => Err e
+          | OK vals2 =>
+              match assemble c (concat blocks) vals2 0 empty_linemap with
+              | Err e => Err e
+              | OK (code, lm) =>
+                  match fa_to_tuple (e_names st2), fa_to_tuple (e_varnames st2),
+                        fa_to_tuple (e_cellvars st2), fa_to_tuple (e_consts st2) with
+                  | OK n, OK v, OK cv, OK k => OK (code, lm, n, v, cv, k)
+                  | Err e, _, _, _ => Err e
+                  | _, Err e, _, _ => Err e
+                  | _, _, Err e, _ => Err e
+                  | _, _, _, Err e => Err e
+                  end
+              end
+          end
+      end
+  end.
+Proof. intros. apply SrcPrologueTie.blocks_to_bytes_outline. Qed.
+Print Assumptions C03_blocks_to_bytes_is_the_source_in_outline.
+
 (* FromArgs.to_tuple, by which blocks_to_bytes turns each table into the tuple the code object carries: the test of the key set
    against range(len) and the values of the items sorted by key (insertion sort on the keys as the meaning of sorted(d.items())),
    re-translated on every run, IS the model's "values at 0, 1, ..., len-1, ValueError when one is missing" - for every table with
